@@ -458,6 +458,14 @@ pub struct Oracle {
     /// index of the history step being executed / of the first C01 flag
     pub cur_step: usize,
     pub first_c01_step: Option<usize>,
+    /// epoch in which a query was last verified by the engine (it was in the static closure
+    /// of the roots of a user request), as of the end of the previous query step
+    pub verified_epoch: HashMap<NodeId, u64>,
+    /// epoch in which a query was last (re-)executed with a set of dependencies that differs
+    /// from the one of its previous execution
+    pub deps_changed_epoch: HashMap<NodeId, u64>,
+    /// the two maps above as they were when the first C01 violation was flagged
+    pub at_first_c01: Option<(HashMap<NodeId, u64>, HashMap<NodeId, u64>)>,
 }
 
 impl Oracle {
@@ -478,6 +486,9 @@ impl Oracle {
             bp_armed: HashSet::new(),
             cur_step: 0,
             first_c01_step: None,
+            verified_epoch: HashMap::new(),
+            deps_changed_epoch: HashMap::new(),
+            at_first_c01: None,
         }
     }
 
@@ -486,6 +497,7 @@ impl Oracle {
             self.c01_violated = true;
             if self.first_c01_step.is_none() {
                 self.first_c01_step = Some(self.cur_step);
+                self.at_first_c01 = Some((self.verified_epoch.clone(), self.deps_changed_epoch.clone()));
             }
         }
         if self.violations.len() < 8 {
@@ -662,6 +674,13 @@ impl Oracle {
             self.ran_in_epoch.insert(r.node);
             if let ExecResult::Value(v) = &r.result {
                 self.value_history.entry(r.node).or_default().push((self.epoch, *v));
+            }
+            {
+                let ids = |v: &[(NodeId, i64)]| v.iter().map(|x| x.0).collect::<BTreeSet<NodeId>>();
+                let changed = self.last_run.get(&r.node).is_none_or(|(_, prev)| ids(prev) != ids(&r.reads));
+                if changed {
+                    self.deps_changed_epoch.insert(r.node, self.epoch);
+                }
             }
             self.last_run.insert(r.node, (self.epoch, r.reads.clone()));
         }
@@ -924,6 +943,9 @@ pub async fn run_sequential<B: Backend>(
                 }
                 or.judge(&recs, false, false);
                 or.count_cutoffs();
+                for n in closure(&prog, roots) {
+                    or.verified_epoch.insert(n, or.epoch);
+                }
                 first_query_in_epoch = false;
                 let ov = std::mem::take(&mut *ctx.log.overlaps.lock());
                 for (n, _) in ov {
